@@ -41,7 +41,7 @@ def fifo_scenarios(tier):
 
 
 def plan(tier):
-    return [dict(engine='e2', name='mutex_sc', tu='C07.cpp', mode='sc', scenarios=scenarios(tier), opts={'loop_bound': 4},
+    return [dict(engine='e2', name='mutex_sc', tu='C07.cpp', mode='sc', scenarios=scenarios(tier), opts={'loop_bound': 3, 'rec_bound': 2}, timeout_s=600,
                  space='contender flavours {try_lock, blocking lock().wait(), coroutine protocol} x release flavours {ownership destructor, release() discarded, release()+clear()}; '
                        'owner-releases-while-requested and free-mutex contention; thorough adds 3 threads and 2 rounds',
                  bounds='2 threads x 1 round (quick); 3 threads x 1 round and 2 threads x 2 rounds (thorough); CAS retries / queue walks <= 4 iterations (bound-exceeded events are queried: a reachable one is reported as "bound insufficient"); sequentially consistent interleavings at instruction granularity',
